@@ -113,6 +113,41 @@ def finite_difference_obligation(vtypes, m=2):
     return lambda pkg: run_obligation(pkg, fn)
 
 
+def perturb_restore_obligation(vtypes, m=2):
+    """C15-E2, decided on the translated code: while calc_jacobians differentiates numerically, every evaluation of the error sees
+    either the original poses or exactly one coordinate of one vertex moved; afterwards every vertex holds its original pose
+    again and the pose *objects* that were given to the vertices have not been modified in place."""
+    def fn(it):
+        poses = [sym_pose(t, "x%d" % k, unit=True) for k, t in enumerate(vtypes)]
+        originals = [Pose(p.cls, list(p.data)) for p in poses]
+        verts = [it.construct("Vertex", [Poly.const(10 + k), poses[k]]) for k in range(len(vtypes))]
+        edge = custom_edge(it, [Poly.const(10 + k) for k in range(len(vtypes))], None, None, verts)
+        E = ErrorFunction(edge, m)
+        edge.stubs["calc_error"] = E
+        it.call_method(edge, "calc_jacobians", [])
+        for k, v in enumerate(verts):
+            pose_equal(it, ga(v, "pose"), originals[k], "after numerical differentiation the pose of vertex %d is not its original value "
+                       "(perturbation not restored)" % k, allow_neg_quat=False)
+            if any(a != b for a, b in zip(poses[k].data, originals[k].data)):
+                raise ObFail("the pose object that vertex %d was created with has been modified in place by numerical differentiation "
+                             "(whoever shares that object sees a perturbed pose)" % k)
+        okey = tuple((p.cls, tuple(x.key() for x in p.data)) for p in originals)
+        for key in E.seen:
+            if key == okey:
+                continue
+            moved = [j for j in range(len(vtypes)) if key[j] != okey[j]]
+            if len(moved) != 1:
+                raise ObFail("the error is evaluated with %d vertices away from their original poses (a perturbation was not undone "
+                             "before the next one)" % len(moved))
+        # a second run must see exactly the same configurations (nothing left behind by the first one)
+        n_before = len(E.seen)
+        it.call_method(edge, "calc_jacobians", [])
+        if len(E.seen) != n_before:
+            raise ObFail("a second calc_jacobians() evaluates the error at configurations the first one did not: state was left behind")
+        return dict(vertex_types=list(vtypes), configurations=len(E.seen))
+    return lambda pkg: run_obligation(pkg, fn)
+
+
 def run(run_, pkg, tier):
     run_.explanation = ("BaseEdge.calc_jacobians/_calc_jacobian are translated with calc_error as an *uninterpreted* function of the "
                         "vertex poses (a fresh vector of atoms per distinct pose configuration).  For unary, binary and ternary edges over "
